@@ -130,6 +130,10 @@ Proof.
   - pose proof (rm_apply_frame _ _ _ _ H1) as (_ & _ & Eadd & _).
     eapply (shape_soc s); [intros c0; autorewrite with chat; eapply strict_rm_apply; eassumption | | exact Eadd | exact C]. cbn [chans with_tasks]. apply rm_apply_spec, rm_spec_tables in H1. tauto.
   - eapply (shape_soc s); [intros c0; autorewrite with chat; apply strict_rm_sender | cbn [chans with_tasks]; apply length_chans_rm | cbn [adds with_tasks]; apply adds_rm | exact C].
+  - (* add sender, failed *) split.
+    + intros c0 Hlt. cbn [chans with_adds with_subs] in Hlt. rewrite chans_set_chan, length_upd in Hlt. autorewrite with chat.
+      destruct (Nat.eq_dec c0 c) as [->|Hne]; [rewrite chan_at_set_same by assumption; apply chok_drop; now apply Hc | rewrite chan_at_set_other by assumption; now apply Hc].
+    + intros sid' a' Hl. cbn [adds with_adds] in Hl. apply in_del_lookup in Hl. eauto.
 Qed.
 
 Lemma shape_init : shape_ok init.
